@@ -73,6 +73,22 @@ impl Drop for Bomb {
     }
 }
 
+/// Set while a sequential-mode case with worker-killing payloads runs. If the
+/// process aborts then (the executor's abort-on-panic guard fired), the payload
+/// was dropped *inside the executor*, which in sequential mode only happens if
+/// the worker loop detached the task instead of awaiting it. The SIGABRT
+/// handler turns that into a classified violation for `/verif/check`.
+static BOMB_CASE: AtomicBool = AtomicBool::new(false);
+
+extern "C" fn on_abort(_sig: libc::c_int) {
+    if BOMB_CASE.load(SeqCst) {
+        let msg = b"\n@@ABORT-VIOLATION@@ C18/sequential-task-result-dropped-inside-executor process aborted by the executor's abort-on-panic guard while a sequential-mode worker dropped a task's panic payload (task detached instead of awaited?)\n";
+        unsafe {
+            libc::write(2, msg.as_ptr() as *const libc::c_void, msg.len());
+        }
+    }
+}
+
 static EXPECT_BUILD_PANIC: AtomicBool = AtomicBool::new(false);
 static UNEXPECTED_PANICS: Mutex<Vec<(String, u32, String)>> = Mutex::new(Vec::new());
 
@@ -249,6 +265,29 @@ fn gen_case(rng: &mut Rng, big: bool) -> Case {
             _ => rng.range(60, 260),
         }
     };
+    if !big && rng.chance(1, 10) {
+        // burst: one or two threads dispatch far faster than few workers can
+        // start tasks, then join at once (tasks still queued at join)
+        let ndisp = rng.range(1, 2);
+        let n = rng.range(40, 400);
+        let body = rng.pick(&[Body::Imm, Body::Yield(1), Body::Yield(3), Body::Sleep(0)]).clone();
+        let mut lists = vec![vec![]; ndisp];
+        for i in 0..n {
+            lists[i % ndisp].push(body.clone());
+        }
+        return Case {
+            workers: rng.range(1, 2),
+            concurrent: rng.chance(2, 3),
+            driver: rng.below(2) as u8,
+            pool_limit: 256,
+            bad_proactor: false,
+            rollcall: false,
+            lists,
+            pace: vec![0; ndisp],
+            join: JoinPoint::Immediate,
+            caller_rt: rng.chance(1, 2),
+        };
+    }
     let bad_proactor = rng.chance(1, 40);
     // bombs kill workers; only meaningful in sequential mode (in concurrent
     // mode the payload is dropped under the executor's abort-on-panic guard)
@@ -282,11 +321,20 @@ fn gen_case(rng: &mut Rng, big: bool) -> Case {
         lists[d].push(b);
     }
     let pace = (0..ndisp).map(|_| rng.below(4) as u8).collect();
+    let driver = rng.below(2) as u8;
+    let pool_limit = *rng.pick(&[1, 2, 4, 4, 256, 256, 256, 256]);
+    let join = *rng.pick(&[JoinPoint::Drained, JoinPoint::Partial, JoinPoint::Immediate, JoinPoint::Immediate]);
+    // Known limitation (kept out of the random workload, it costs a shard every
+    // time): with thread_pool_limit = 1 the polling driver retries its blocking
+    // operations (`while pool.dispatch(..).is_err() { yield }`) while the only
+    // pool thread runs join's thread-joining closure, so join spins for ever.
+    // Such cases drain their results first, then nobody needs the pool in join.
+    let join = if pool_limit == 1 && driver == 1 && !bad_proactor && !bombs { JoinPoint::Drained } else { join };
     Case {
         workers,
         concurrent,
-        driver: rng.below(2) as u8,
-        pool_limit: *rng.pick(&[1, 2, 4, 256]),
+        driver,
+        pool_limit,
         bad_proactor,
         // Only in sequential mode: there a worker has no receive pending while
         // it runs a task. In concurrent mode the blocked worker still owns a
@@ -296,7 +344,7 @@ fn gen_case(rng: &mut Rng, big: bool) -> Case {
         rollcall: !bad_proactor && !concurrent && rng.chance(1, 2),
         lists,
         pace,
-        join: *rng.pick(&[JoinPoint::Drained, JoinPoint::Partial, JoinPoint::Immediate, JoinPoint::Immediate]),
+        join,
         caller_rt: rng.chance(2, 3),
     }
 }
@@ -622,6 +670,7 @@ struct Obs {
     exits: Vec<(u64, u64)>,
     roll_tids: BTreeSet<u64>,
     census_late: u32,
+    census_tids: usize,
     census_stuck: Vec<String>,
     harness_problem: Option<String>,
     unexpected_panics: Vec<(String, u32, String)>,
@@ -648,25 +697,83 @@ fn classify_payload(p: Box<dyn Any + Send>) -> JoinOut {
     JoinOut::PanicOther
 }
 
-fn census(prefix: &str) -> Vec<String> {
+/// Thread ids of the live threads whose name starts with `prefix`. A thread
+/// spawned *by* a worker (blocking-pool threads) inherits the worker's comm, so
+/// names identify workers only right after the dispatcher was built.
+fn named_tids(prefix: &str) -> Vec<u64> {
     let mut v = vec![];
     if let Ok(rd) = std::fs::read_dir("/proc/self/task") {
         for e in rd.flatten() {
             let p = e.path();
             if let Ok(comm) = std::fs::read_to_string(p.join("comm")) {
-                let comm = comm.trim();
-                if comm.starts_with(prefix) {
-                    // a task that is past user code (zombie / dead) does not count
-                    let st = std::fs::read_to_string(p.join("stat")).unwrap_or_default();
-                    let state = st.rsplit_once(") ").and_then(|x| x.1.chars().next()).unwrap_or('?');
-                    if state != 'Z' && state != 'X' && state != '?' {
-                        v.push(format!("{comm}:{state}"));
+                if comm.trim().starts_with(prefix) {
+                    if let Some(t) = p.file_name().and_then(|n| n.to_str()).and_then(|n| n.parse().ok()) {
+                        v.push(t);
                     }
                 }
             }
         }
     }
     v
+}
+
+/// Which of `tids` are still threads of this process that have not left user
+/// code (zombie / dead tasks do not count).
+fn census(tids: &BTreeSet<u64>) -> Vec<String> {
+    let mut v = vec![];
+    for t in tids {
+        let p = std::path::PathBuf::from(format!("/proc/self/task/{t}"));
+        if let Ok(st) = std::fs::read_to_string(p.join("stat")) {
+            let state = st.rsplit_once(") ").and_then(|x| x.1.chars().next()).unwrap_or('?');
+            if state != 'Z' && state != 'X' && state != '?' {
+                let comm = std::fs::read_to_string(p.join("comm")).unwrap_or_default();
+                v.push(format!("{t}:{}:{state}", comm.trim()));
+            }
+        }
+    }
+    v
+}
+
+/// Logical quiescence of the process apart from `exclude`: over a period longer
+/// than every timeout in the system, no other thread was scheduled even once
+/// (context-switch counters unchanged, all sleeping) and the thread set did
+/// not change. Returns a description of the sleeping threads if quiescent.
+fn quiescent(exclude: &[u64], period: Duration, rounds: usize) -> Option<String> {
+    fn snap(exclude: &[u64]) -> BTreeMap<u64, (String, String)> {
+        let mut m = BTreeMap::new();
+        if let Ok(rd) = std::fs::read_dir("/proc/self/task") {
+            for e in rd.flatten() {
+                let p = e.path();
+                let Some(t) = p.file_name().and_then(|n| n.to_str()).and_then(|n| n.parse::<u64>().ok()) else { continue };
+                if exclude.contains(&t) {
+                    continue;
+                }
+                let status = std::fs::read_to_string(p.join("status")).unwrap_or_default();
+                let mut key = String::new();
+                for l in status.lines() {
+                    if l.starts_with("State:") || l.contains("ctxt_switches") {
+                        key.push_str(l);
+                        key.push(';');
+                    }
+                }
+                let comm = std::fs::read_to_string(p.join("comm")).unwrap_or_default();
+                let wchan = std::fs::read_to_string(p.join("wchan")).unwrap_or_default();
+                m.insert(t, (key, format!("{}@{}", comm.trim(), wchan.trim())));
+            }
+        }
+        m
+    }
+    for _ in 0..rounds {
+        let a = snap(exclude);
+        std::thread::sleep(period);
+        let b = snap(exclude);
+        let same = a.len() == b.len()
+            && a.iter().all(|(t, (k, _))| b.get(t).is_some_and(|(k2, _)| k2 == k && k.contains("State:\tS")));
+        if same {
+            return Some(b.values().map(|v| v.1.clone()).collect::<Vec<_>>().join(", "));
+        }
+    }
+    None
 }
 
 fn dispatch_one(
@@ -729,7 +836,15 @@ fn dispatch_one(
 
 static CASE_NO: AtomicU32 = AtomicU32::new(0);
 
-fn run_case(case: &Case, sched_seed: u64) -> Obs {
+#[derive(Default)]
+struct Progress {
+    /// 0 building, 1 dispatching, 2 waiting for results, 3 inside join, 4 past join
+    phase: AtomicU8,
+    case_tid: AtomicU64,
+}
+
+fn run_case(case: &Case, sched_seed: u64, progress: &Arc<Progress>) -> Obs {
+    progress.case_tid.store(gettid(), SeqCst);
     let case_no = CASE_NO.fetch_add(1, SeqCst) % 100_000;
     let prefix = format!("v18w{case_no}-");
     let ctx = Arc::new(Ctx {
@@ -769,17 +884,25 @@ fn run_case(case: &Case, sched_seed: u64) -> Obs {
         exits: vec![],
         roll_tids: BTreeSet::new(),
         census_late: 0,
+        census_tids: 0,
         census_stuck: vec![],
         harness_problem: None,
         unexpected_panics: vec![],
     };
     UNEXPECTED_PANICS.lock().unwrap().clear();
     EXPECT_BUILD_PANIC.store(case.bad_proactor, SeqCst);
+    BOMB_CASE.store(!case.concurrent && case.lists.iter().flatten().any(|b| matches!(b, Body::Bomb)), SeqCst);
 
     let mut pb = ProactorBuilder::new();
     pb.driver_type(if case.driver == 0 { DriverType::IoUring } else { DriverType::Poll });
     pb.thread_pool_limit(case.pool_limit);
-    pb.thread_pool_recv_timeout(Duration::from_millis(30));
+    // Pool threads retire after this idle time. Do not make it short:
+    // `AsyncifyPool::dispatch` spawns a pool thread and then does a blocking
+    // rendezvous `send`; if the fresh thread's `recv_timeout` expires before the
+    // spawner gets to `send` (seen with 30 ms on a loaded machine) the send —
+    // and with it `Dispatcher::join` — blocks forever. That is pool behaviour
+    // (C17), not what this property is about.
+    pb.thread_pool_recv_timeout(Duration::from_secs(5));
     if case.bad_proactor {
         // io_uring_setup rejects more than 32768 entries: every worker fails to
         // build its runtime and panics ("cannot create compio runtime")
@@ -802,6 +925,21 @@ fn run_case(case: &Case, sched_seed: u64) -> Obs {
             return obs;
         }
     };
+
+    // census of the worker threads by name (they name themselves when they start)
+    let mut worker_tids: BTreeSet<u64> = BTreeSet::new();
+    if !case.bad_proactor {
+        for _ in 0..2000 {
+            let t = named_tids(&prefix);
+            if t.len() >= case.workers {
+                worker_tids = t.into_iter().collect();
+                break;
+            }
+            std::thread::yield_now();
+        }
+    }
+    obs.census_tids = worker_tids.len();
+    progress.phase.store(1, SeqCst);
 
     let watchdog = Instant::now() + Duration::from_secs(40);
     let mut receivers: Vec<(Arc<Rec>, oneshot::Receiver<Tag>)> = vec![];
@@ -905,13 +1043,17 @@ fn run_case(case: &Case, sched_seed: u64) -> Obs {
     let join_call = Arc::new(AtomicU64::new(0));
     let join_ret = Arc::new(AtomicU64::new(0));
     let (jc, jr) = (join_call.clone(), join_ret.clone());
+    let pr = progress.clone();
+    progress.phase.store(2, SeqCst);
     let fut = async move {
         for (r, rx) in first {
             r.set_rx(rx.await);
         }
         jc.store(seq(), SeqCst);
+        pr.phase.store(3, SeqCst);
         let res = disp.join().await;
         jr.store(seq(), SeqCst);
+        pr.phase.store(4, SeqCst);
         res
     };
     let res = catch_unwind(AssertUnwindSafe(|| {
@@ -921,7 +1063,7 @@ fn run_case(case: &Case, sched_seed: u64) -> Obs {
                 Err(_) => None,
             }
         } else {
-            block_on_deadline(fut, watchdog + Duration::from_secs(20))
+            block_on_deadline(fut, Instant::now() + Duration::from_secs(100_000))
         }
     }));
     let after = seq();
@@ -934,21 +1076,22 @@ fn run_case(case: &Case, sched_seed: u64) -> Obs {
         Ok(Some(Ok(()))) => JoinOut::Ok,
         Ok(Some(Err(e))) => JoinOut::IoErr(e.to_string()),
         Ok(None) => {
-            obs.harness_problem = Some("caller runtime unavailable or join timed out".into());
+            obs.harness_problem = Some("caller runtime unavailable".into());
             JoinOut::NotRun
         }
         Err(p) => classify_payload(p),
     };
     EXPECT_BUILD_PANIC.store(false, SeqCst);
+    BOMB_CASE.store(false, SeqCst);
 
     // thread census after join returned
-    if obs.join_out != JoinOut::NotRun {
-        let mut left = census(&prefix);
+    if obs.join_out != JoinOut::NotRun && !worker_tids.is_empty() {
+        let mut left = census(&worker_tids);
         let mut tries = 0;
         while !left.is_empty() && tries < 400 {
             obs.census_late = obs.census_late.max(tries + 1);
             std::thread::sleep(Duration::from_millis(2));
-            left = census(&prefix);
+            left = census(&worker_tids);
             tries += 1;
         }
         obs.census_stuck = left;
@@ -986,6 +1129,11 @@ fn run_case(case: &Case, sched_seed: u64) -> Obs {
 // ---------------------------------------------------------------------------
 // oracle
 // ---------------------------------------------------------------------------
+
+/// An accepted task that was never started: was its dispatch over before join was called?
+fn start_never_class(join_call: u64, r: &Rec) -> bool {
+    r.ret_seq.load(SeqCst) < join_call
+}
 
 struct Finding {
     sig: String,
@@ -1186,7 +1334,7 @@ fn judge(case: &Case, obs: &Obs) -> Verdicts {
             let excused = case.bad_proactor || all_dead_by_bomb;
             if !excused {
                 add(
-                    format!("C18/accepted-never-started/{mode}"),
+                    format!("C18/accepted-never-started/{mode}/{}", if start_never_class(jc, r) { "queued-at-join" } else { "dispatched-after-join-call" }),
                     format!(
                         "dispatch of task {} ({}) returned Ok, join returned, the closure was never called (receiver state {rx})",
                         r.id,
@@ -1313,17 +1461,53 @@ fn judge(case: &Case, obs: &Obs) -> Verdicts {
 // driver
 // ---------------------------------------------------------------------------
 
-fn run_with_watchdog(case: &Case, sched_seed: u64) -> Option<Obs> {
+enum CaseEnd {
+    Done(Obs),
+    /// join never returned and the rest of the process is logically quiescent
+    JoinDeadlock(String),
+    /// no verdict; the stuck threads are still active, the process should stop
+    Watchdog(String),
+}
+
+fn run_with_watchdog(case: &Case, sched_seed: u64) -> CaseEnd {
     let (tx, rx) = mpsc::channel();
     let c = case.clone();
-    std::thread::Builder::new()
+    let progress = Arc::new(Progress::default());
+    let p2 = progress.clone();
+    if std::thread::Builder::new()
         .name("v18-case".into())
         .spawn(move || {
-            let o = run_case(&c, sched_seed);
+            let o = run_case(&c, sched_seed, &p2);
             let _ = tx.send(o);
         })
-        .ok()?;
-    rx.recv_timeout(Duration::from_secs(120)).ok()
+        .is_err()
+    {
+        return CaseEnd::Watchdog("cannot spawn the case thread".into());
+    }
+    if let Ok(o) = rx.recv_timeout(Duration::from_secs(20)) {
+        return CaseEnd::Done(o);
+    }
+    // Not finished. A verdict needs logical quiescence: the case is inside
+    // `join` and no other thread of the process runs any more.
+    if std::env::var_os("C18_HANG_PAUSE").is_some() {
+        eprintln!("c18: watchdog fired, pid {} pausing for inspection", std::process::id());
+        std::thread::sleep(Duration::from_secs(600));
+    }
+    let phase = progress.phase.load(SeqCst);
+    if phase == 3 {
+        let me = gettid();
+        let case_tid = progress.case_tid.load(SeqCst);
+        // longer than the pool's idle timeout (5 s) and every timer of the workload
+        if let Some(desc) = quiescent(&[me, case_tid], Duration::from_secs(6), 2) {
+            if progress.phase.load(SeqCst) == 3 {
+                return CaseEnd::JoinDeadlock(desc);
+            }
+        }
+    }
+    if let Ok(o) = rx.recv_timeout(Duration::from_secs(5)) {
+        return CaseEnd::Done(o);
+    }
+    CaseEnd::Watchdog(format!("case did not finish (phase {phase}), threads still active"))
 }
 
 fn bucket(n: usize) -> &'static str {
@@ -1338,14 +1522,27 @@ fn bucket(n: usize) -> &'static str {
 
 /// Evaluate one case; returns false if the process should stop (watchdog).
 fn eval_case(rep: &mut Report, case: &Case, sched_seed: u64) -> (bool, bool) {
-    let Some(obs) = run_with_watchdog(case, sched_seed) else {
-        rep.inconclusive("watchdog: case did not finish in 120 s (no verdict)");
-        rep.note(format!("watchdog: sched_seed {sched_seed}; case {}", case.to_json()));
-        if std::env::var_os("C18_HANG_PAUSE").is_some() {
-            eprintln!("c18: watchdog fired, pid {} pausing for inspection", std::process::id());
-            std::thread::sleep(Duration::from_secs(600));
+    let obs = match run_with_watchdog(case, sched_seed) {
+        CaseEnd::Done(o) => o,
+        CaseEnd::JoinDeadlock(desc) => {
+            let mode = if case.concurrent { "concurrent" } else { "sequential" };
+            rep.eval(Some(format!("w{}/{}/d{}/join-deadlock", case.workers, mode, case.lists.len())));
+            rep.violation(
+                &format!("C18/join-never-returns/quiescent-deadlock/{mode}"),
+                &format!(
+                    "Dispatcher::join did not return and every other thread of the process is asleep for good \
+                     (no context switch in 6 s, longer than any timeout in play): {desc}"
+                ),
+                json!({"case": case.to_json(), "sched_seed": sched_seed, "reps": 3000}),
+            );
+            // the stuck threads sleep forever: harmless, go on
+            return (true, true);
         }
-        return (false, false);
+        CaseEnd::Watchdog(why) => {
+            rep.inconclusive(&format!("watchdog: {why} (no verdict)"));
+            rep.note(format!("watchdog: sched_seed {sched_seed}; case {}", case.to_json()));
+            return (false, false);
+        }
     };
     let v = judge(case, &obs);
     let mode = if case.concurrent { "con" } else { "seq" };
@@ -1378,11 +1575,14 @@ fn eval_case(rep: &mut Report, case: &Case, sched_seed: u64) -> (bool, bool) {
     rep.floor("saw-concurrent", case.concurrent);
     rep.floor("saw-8-dispatchers", ndisp >= 8);
     rep.floor("saw-rollcall-census", !obs.roll_tids.is_empty());
+    rep.floor("saw-proc-census-of-all-workers", obs.census_tids >= case.workers);
     if rep.want_sample() && nontrivial {
         rep.sample(json!({"signature": sig, "case": case.to_json(), "join": format!("{:?}", obs.join_out)}));
     }
     for i in &v.inconclusive {
         rep.inconclusive(i);
+    }
+    if let Some(i) = v.inconclusive.first() {
         let mut c = case.to_json().to_string();
         c.truncate(700);
         rep.note(format!("inconclusive: {i}; sched_seed {sched_seed}; case {c}"));
@@ -1396,6 +1596,9 @@ fn eval_case(rep: &mut Report, case: &Case, sched_seed: u64) -> (bool, bool) {
 
 pub fn main(args: &Args) {
     install_filter_hook();
+    unsafe {
+        libc::signal(libc::SIGABRT, on_abort as extern "C" fn(libc::c_int) as usize);
+    }
     let leg = args.str("leg", "plain");
     let mut rep = Report::from_args("C18", &leg, args);
     rep.set_exhaustive(false);
